@@ -2008,6 +2008,10 @@ class C02(Prop):
             return "default-argument-before-threaded-global"
         if "which hides the struct member" in why:
             return "threaded-global-named-like-a-member"
+        if "as parameters of one name" in why:
+            return "threaded-globals-share-a-short-name"
+        if "which hides another global of that name that its body uses" in why:
+            return "threaded-global-hides-a-constant-of-its-name"
         if re.search(r"receives the globals \[.*\]", why):
             m = re.search(r"receives the globals (\[[^\]]*\])", why)
             names = re.findall(r"'(\w+)'", m.group(1)) if m else []
